@@ -995,3 +995,13 @@ package graphql
 //@   assigns nothing
 //@   ensures !typeis(valueAST, "*ast.IntValue") ==> isnil(result)
 //@   ensures !isnil(result) ==> typeis(result, "int") && -2147483648 <= intval(result) && intval(result) <= 2147483647
+
+// ---- introspection default values (C10): printed against the declared type of the argument / input field ----
+//@ func after:introspection.go:"A GraphQL-formatted string representing the default value for this "
+//@   props C10
+//@   nosafety
+//@   at call astFromValue#1: assert arg0 == inputVal.DefaultValue && arg1 == inputVal.Type
+//@   at call astFromValue#2: assert arg0 == inputVal.DefaultValue && arg1 == inputVal.Type
+//@ func astFromValue
+//@   trusted
+//@   assigns nothing
